@@ -87,6 +87,8 @@ static void commit_one(int t){
 	struct sbent e=T[t].buf[0]; memmove(T[t].buf,T[t].buf+1,sizeof(e)*(--T[t].nbuf));
 	int i=cm_find(e.addr); if(i<0){ printf("BUG no shadow\n"); fflush(stdout); _exit(6);} CM[i].v=e.v; if(--CM[i].npend==0) memcpy(e.addr,&CM[i].v,e.sz); }
 static void drain(int t){ while(T[t].nbuf) commit_one(t); }
+/* what pthread_create / pthread_join synchronise with: the creator's earlier stores, every store of the joined thread */
+static void drain_logged(int t){ while(T[t].nbuf){ char l[64], v[64]; vs_ploc(l,T[t].buf[0].addr); pval(v,T[t].buf[0].v,T[t].buf[0].sz); commit_one(t); printf("%d flush %s v=%s\n", t, l, v); } }
 static void drain_all(void){ for(int t=0;t<NT;t++) drain(t); }
 static unsigned long committed_read(const void *addr, size_t sz){ unsigned long v=0; int i=cm_find(addr); if(i>=0) return CM[i].v; memcpy(&v,addr,sz); return v; }
 static unsigned long rmw_begin(const void *addr, size_t sz, int *idx){ unsigned long saved=0; *idx=cm_find(addr); if(*idx>=0){ memcpy(&saved,addr,sz); memcpy((void*)addr,&CM[*idx].v,sz);} return saved; }
@@ -272,12 +274,13 @@ void vs_spawn(void (*fn)(int)){ int t=spawn_common(); T[t].fn=fn; T[t].is_app=1;
 unsigned long vs_create_fail_mask; static int ncreate;
 int vh_pthread_create(pthread_t *tid, const pthread_attr_t *a, void *(*fn)(void *), void *arg){
 	if(me<0) return pthread_create(tid,a,fn,arg);
-	yield_point(0);
+	yield_point(0); drain_logged(me);      /* pthread_create synchronises: everything the creator stored before is visible to the new thread */
 	{ int k=ncreate++; if(k<64 && ((vs_create_fail_mask>>k)&1)){ printf("%d create_fail EAGAIN\n",me); return 11; } } int t=spawn_common(); T[t].fn=0; T[t].pfn=fn; T[t].parg=arg; pthread_create(&T[t].tid,0,tmain,(void*)(long)t); sem_wait(&born); *tid=T[t].tid; { char v[64]; pval(v,(unsigned long)arg,8); printf("%d create %d arg=%s\n",me,t,v); } return 0; }
 void vh_pthread_exit(void *r){ if(me>=0){ yield_point(0); T[me].alive=0; T[me].needs_empty=0; printf("%d exit\n",me); sem_post(&ctl);} pthread_exit(r); }
 int vh_pthread_join(pthread_t tid, void **ret){
 	if(me<0) return 0;
-	int t=-1; for(int i=0;i<NT;i++) if(pthread_equal(T[i].tid,tid)) t=i; T[me].want_join=t; yield_point(0); T[me].want_join=-1; printf("%d join %d\n",me,t); if(ret)*ret=0; return 0; }
+	int t=-1; for(int i=0;i<NT;i++) if(pthread_equal(T[i].tid,tid)) t=i; T[me].want_join=t; yield_point(0); T[me].want_join=-1; if(t>=0) drain_logged(t);   /* pthread_join synchronises with the end of the joined thread: all its stores are visible now */
+	printf("%d join %d\n",me,t); if(ret)*ret=0; return 0; }
 
 static void on_abort(int sig){ (void)sig; printf("ABORT\n"); fflush(stdout); _exit(7); }
 void vs_run(const char *sched){
